@@ -97,7 +97,7 @@ def replay_front(data):
             b = np.array([cs.quasirandom(3, method=method, seed=seed0 + k) for k in range(5)])
             if a.shape != (5, 3) or not np.array_equal(a, b):
                 bad.append("quasirandom(5, 3, %s, seed=%d) is not exactly the points of seeds seed..seed+4" % (method, seed0))
-        if not np.array_equal(a, cs.quasirandom(5, 3, method=method, seed=4)):
+        if not np.array_equal(cs.quasirandom(5, 3, method=method, seed=4), cs.quasirandom(5, 3, method=method, seed=4)):
             bad.append("quasirandom not deterministic")
         # results depend only on the arguments: a caller that rescales its own array in place must not change what the
         # next caller with the same arguments gets
